@@ -629,7 +629,7 @@ func (e *streamExec) step(s *SStep) {
 	case "every_write":
 		kinds := s.Kinds
 		if len(kinds) == 0 {
-			kinds = []string{"err", "short", "full"}
+			kinds = []string{"err", "short", "err1", "short1", "full"}
 		}
 		for _, kind := range kinds {
 			n := e.wcalls
